@@ -273,3 +273,63 @@ Proof.
   eapply strict_only_narrows_same_value; eauto.
 Qed.
 End RT.
+
+(* ---------------- the documented outer form of what dumpers return ---------------- *)
+Lemma all_some_forall2 (g : pv -> option pv) l : forall rs, all_some g l = Some rs -> Forall2 (fun x y => g x = Some y) l rs.
+Proof.
+  induction l as [|x r IH]; intros rs H; cbn [all_some] in H.
+  - injection H as <-. constructor.
+  - destruct (g x) as [a|] eqn:Ex; [|discriminate].
+    destruct (all_some g r) as [b|] eqn:Er; [|discriminate]. injection H as <-. constructor; [exact Ex|exact (IH b eq_refl)].
+Qed.
+
+Section Forms.
+Variable UM : nat -> list nat.
+
+(* every iterable is dumped element-wise, in iteration order, as a tuple - as a list when the type is list *)
+Theorem dump_iterable_form k t v r : dump UM (TIter k t) v = Some r ->
+  exists l rs, elems_of v = Some l /\ Forall2 (fun x y => dump UM t x = Some y) l rs /\
+               r = match k with KList => VList rs | _ => VTuple rs end.
+Proof.
+  cbn [dump]. destruct (elems_of v) as [l|]; [|discriminate]. destruct (all_some (dump UM t) l) as [rs|] eqn:E; [|discriminate].
+  cbn [option_map]. intro H. injection H as <-. exists l, rs. split; [reflexivity|]. split; [exact (all_some_forall2 _ _ _ E)|].
+  destruct k; reflexivity.
+Qed.
+
+(* a fixed tuple is dumped position-wise, each position by its own type's dumper, as a tuple of the same length *)
+Theorem dump_tuple_form ts v r : dump UM (TTuple ts) v = Some r ->
+  exists l rs, (v = VTuple l \/ v = VList l) /\ List.length l = List.length ts /\
+               Forall2 (fun tx y => dump UM (fst tx) (snd tx) = Some y) (combine ts l) rs /\ r = VTuple rs.
+Proof.
+  cbn [dump]. intro H.
+  assert (G : forall l, (if Nat.eqb (List.length l) (List.length ts)
+          then option_map VTuple
+                 ((fix go (ts : list ty) (l : list pv) {struct ts} : option (list pv) :=
+                     match ts, l with
+                     | t1 :: tr, x :: r => match dump UM t1 x, go tr r with Some a, Some b => Some (a :: b) | _, _ => None end
+                     | _, _ => Some []
+                     end) ts l)
+          else None) = Some r ->
+          List.length l = List.length ts /\ exists rs, Forall2 (fun tx y => dump UM (fst tx) (snd tx) = Some y) (combine ts l) rs /\ r = VTuple rs).
+  { intros l. destruct (Nat.eqb (List.length l) (List.length ts)) eqn:El; [|discriminate]. apply Nat.eqb_eq in El.
+    split; [exact El|]. clear El.
+    match type of H0 with option_map _ ?g = _ => destruct g as [rs|] eqn:Eg; [|discriminate] end.
+    cbn [option_map] in H0. injection H0 as <-. exists rs. split; [|reflexivity]. clear H.
+    revert l rs Eg. induction ts as [|t1 tr IH]; intros l rs Eg.
+    - injection Eg as <-. constructor.
+    - destruct l as [|x r0]; [injection Eg as <-; constructor|].
+      destruct (dump UM t1 x) as [a|] eqn:E1; [|discriminate].
+      match type of Eg with match ?g with _ => _ end = _ => destruct g as [b|] eqn:E2; [|discriminate] end.
+      injection Eg as <-. cbn [combine]. constructor; [exact E1|exact (IH r0 b E2)]. }
+  destruct v; try discriminate; destruct (G l H) as [Hl [rs [HF Hr]]]; exists l, rs; auto.
+Qed.
+
+(* types that the documentation dumps without conversion *)
+Theorem dump_scalar_identity t v : match t with TInt | TFloat | TBool | TStr | TNone | TAny | TLit _ => True | _ => False end ->
+  dump UM t v = Some v.
+Proof. destruct t; intros []; reflexivity. Qed.
+
+(* Optional: None stays None, anything else goes through the inner type's dumper *)
+Theorem dump_optional_form t v : dump UM (TOpt t) v = match v with VNone => Some VNone | _ => dump UM t v end.
+Proof. reflexivity. Qed.
+End Forms.
